@@ -231,6 +231,25 @@ class C04(runner.Check):
       # simultaneous create-or-load of one (new or existing) study by 2-3 clients
       d = rng.choice([0, 2, 2])
       batch = [['CreateStudy', {'o': 0, 'd': d, 'state': 'ACTIVE'}] for _ in range(rng.choice([2, 2, 3]))]
+    r = rng.random()
+    if 0.06 <= r < 0.24:
+      # focused batch: a REQUESTED pool exists, one thread draws from it while the other(s) act on a
+      # pooled / the same trial or allocate ids in the same study
+      s0 = {'o': 0, 'd': 0}
+      k = rng.choice([1, 2, 2, 3])
+      prefix = prefix + [['CreateTrial', {'study': s0, 'x': rng.randrange(100), 'tkind': 'plain'}] for _ in range(k)]
+      batch = [['SuggestTrials', {'study': s0, 'n': rng.choice([1, 2, 3, 4]), 'worker': rng.randrange(4)}]]
+      for _ in range(nb - 1):
+        k2 = rng.choice(['DeleteTrial', 'DeleteTrial', 'StopTrial', 'CompleteTrial', 'AddTrialMeasurement',
+                         'UpdateMetadata', 'SuggestTrials', 'CreateTrial', 'CheckES'])
+        op = W.gen_op(rng, k2, {'n_studies': 1, 'n_owners': 1, 'workers': 4, 'md_missing': False, 'p_direct': 0.0})
+        op[1]['study'] = s0
+        if 'trial' in op[1]:
+          op[1]['trial'] = {'pref': rng.choice(['requested', 'requested', 'requested', 'active', 'max']), 'i': rng.randrange(k)}
+        if k2 == 'SuggestTrials':
+          op[1]['n'] = rng.choice([1, 2, 3])
+        batch.append(op)
+      rng.shuffle(batch)
     ns = 20 if tier == 'quick' else 60
     if backend != 'ram':
       ns = max(4, ns // 4)
@@ -371,7 +390,7 @@ class C04(runner.Check):
             viol.append(('unfinished-operation', f'{oname} left done=False by the batch'))
             break
         for name in old_studies - set(snap['studies']):
-          o, d = name.split('/')[1][1:], name.split('/')[3][1:]
+          o, d = O.OWNER_IDS.index(name.split('/')[1]), O.STUDY_IDS.index(name.split('/')[3])
           O.execute(sv, {'kind': 'CreateStudy', 'owner': int(o), 'display': int(d), 'state': 'ACTIVE'}, cfg)
           r = O.outcome_norm('ListTrials', O.execute(sv, {'kind': 'ListTrials', 'study': name}, cfg))
           if r[0] != 'ok' or r[2]:
